@@ -204,12 +204,12 @@ def run(ctx):
     thorough = ctx.tier == "thorough"
     alphabet = DOC_NAMES + [n + "@existing" for n in DOC_NAMES if n.endswith("-one") or n in ("ttl-two",)]
     hists = []
-    maxlen = 3 if thorough else 2
+    maxlen = 3
     for target in TARGETS:
         for prestate in PRESTATES:
             for k in range(1, maxlen + 1):
-                if k == 3:
-                    # depth 3 on the sub-alphabet of one document per syntax (+ dynamic labels)
+                if k == 3 and not thorough:
+                    # quick: depth 3 on the sub-alphabet of one document per syntax (+ dynamic labels); thorough: depth 3 on the whole alphabet
                     sub = [n for n in alphabet if n.split("@")[0].endswith("-one")]
                     seqs = itertools.product(sub, repeat=3)
                 else:
@@ -254,6 +254,7 @@ META = {
             "syntaxes that reuse one blank-node label within a document, across named graphs of a document, across documents and equal to "
             "identifiers already present in the target (incl. rdflib-generated ones), into Graph and Dataset targets with and without content; "
             "every step checks monotonicity and that the added quads are the document's graph on fresh blank nodes.",
-    "note": "Document alphabet of 21 hand-written documents (+ dynamic-label variants); depth 2 (quick) / 3 on one document per syntax (thorough).",
+    "note": "Document alphabet of ~35 hand-written documents (+ dynamic-label variants): label once / twice / across graphs / forward reference / anonymous nodes, in nine syntaxes; "
+            "three targets (Graph, Dataset, a named graph of a Dataset); every history of <= 2 parse calls, and of 3 on one document per syntax (quick) / on the whole alphabet (thorough).",
     "technique": "exhaustive enumeration of parse-call histories over a document alphabet with an isomorphism oracle on the added quads",
 }
